@@ -1,7 +1,9 @@
 """C03 binder: geometry validation.  Encoder only -- the verdict is T_GeomValidate's.
 
 A case is {"kind": type tag, "toks": token string of the coordinate structure, "c": the same structure as
-nested JSON (printed by TLC from the tokens with GeomValidate!Tree)}.  The binder pushes the structure through
+nested JSON (printed by TLC from the tokens with GeomValidate!Tree), "num": "lit" | "fine", "vals": [[code, literal]..]}.
+In a "lit" case the numbers are the values; in a "fine" case they are codes of the strictly increasing table "vals"
+(GeomValidate!FineTable: non-integer doubles), which the binder maps to doubles on the way in and back on the way out.  The binder pushes the structure through
 every entry point of the real library, with the numbers once as floats and once as ints, and records what came
 back.  It does not know what is valid.
 """
@@ -30,7 +32,11 @@ RULE = ("one case per (type tag, coordinate structure) of the TLA+ universe (fla
         "each run through 6 entry points x 2 number renderings; non-trivial = the structure is a non-empty list")
 TRUSTED_BASE = ["checks/c03.py (token string <-> nested list, float/int rendering, calls the six entry points, "
                 "reads class/tag/coordinates back as exact integers, library == for the dump round trip)"]
-ASSUMPTIONS = ["coordinates are finite numbers (ints / floats with integer values); NaN, inf, strings, booleans, tuples are outside the statement",
+ASSUMPTIONS = ["coordinates are finite numbers: ints, integer-valued floats, and the non-integer doubles of GeomValidate!FineTable "
+               "(many-bit dyadic fractions, decimals beyond six digits, values 1e-7 inside / outside MAX_FREQUENCY); NaN, inf, strings, "
+               "booleans, tuples are outside the statement",
+               "validity and normal forms are order facts, so a strictly increasing coding of doubles by integers that keeps 0 and "
+               "MAX_FREQUENCY leaves the specification unchanged; the binder checks that the table increases strictly",
                "a 'validation error' is any ValueError (pydantic.ValidationError is one)",
                "the one open reading of the statement (multi-line 'strictly forward': first<last vs every step) "
                "is not judged: accept is demanded under the strict reading, reject under the documented one; a polygon "
@@ -49,13 +55,18 @@ def _recording():
     return _REC
 
 
-def enc(x):
-    """nested list / number -> token string (numbers must be exact integers)."""
+OFF = -777777        # an observed number that is no value of the case's table
+
+
+def enc(x, back=None):
+    """nested list / number -> token string (numbers must be exact integers, or values of the table `back`)."""
     if isinstance(x, (list, tuple)):
         out = [OPEN]
         for y in x:
-            out += enc(y)
+            out += enc(y, back)
         return out + [CLOSE]
+    if back is not None:
+        return [back.get(float(x), OFF)]
     v = ticks(x, 1.0)
     if v in (OPEN, CLOSE):
         raise ValueError("value collides with a bracket token")
@@ -78,10 +89,23 @@ def dec(toks):
     return v
 
 
-def render(c, num):
+def render(c, num, table=None):
     if isinstance(c, list):
-        return [render(y, num) for y in c]
+        return [render(y, num, table) for y in c]
+    if table is not None:
+        return table[c]
     return float(c) if num == "float" else int(c)
+
+
+def _tables(case):
+    """code -> double and double -> code of a fine case; the coding must be strictly increasing and keep 0 and MAX_FREQUENCY."""
+    if case.get("num", "lit") != "fine":
+        return None, None
+    pairs = [(int(k), float(v)) for k, v in case["vals"]]
+    if any(a[0] >= b[0] or a[1] >= b[1] for a, b in zip(pairs, pairs[1:])) or (0, 0.0) not in pairs \
+            or (G.MAX_FREQUENCY, float(G.MAX_FREQUENCY)) not in pairs:
+        raise AssertionError("the fine table is not an order embedding")
+    return dict(pairs), {v: k for k, v in pairs}
 
 
 def _call(entry, kind, c):
@@ -102,21 +126,21 @@ def _call(entry, kind, c):
     raise KeyError(entry)
 
 
-def _run(entry, num, kind, c):
+def _run(entry, num, kind, c, table=None, back=None):
     r = {"entry": entry, "num": num, "res": "", "exc": "", "verr": False, "cls": "", "tag": "", "coords": [],
          "eq": "", "cls2": "", "coords2": []}
     try:
-        g = _call(entry, kind, render(c, num))
+        g = _call(entry, kind, render(c, num, table))
     except Exception as ex:  # an observation
         r.update(res="raise", exc=type(ex).__name__, verr=isinstance(ex, ValueError))
         return r
     if not isinstance(g, G.BaseGeometry):
         r.update(res="other", exc=type(g).__name__)
         return r
-    r.update(res="ok", cls=type(g).__name__, tag=str(g.type), coords=enc(g.coordinates))
+    r.update(res="ok", cls=type(g).__name__, tag=str(g.type), coords=enc(g.coordinates, back))
     try:
         g2 = data.geometry_validate(g.model_dump_json())
-        r.update(eq="equal" if (g2 == g) is True else "differs", cls2=type(g2).__name__, coords2=enc(g2.coordinates))
+        r.update(eq="equal" if (g2 == g) is True else "differs", cls2=type(g2).__name__, coords2=enc(g2.coordinates, back))
     except Exception as ex:
         r.update(eq="raise", cls2=type(ex).__name__)
     return r
@@ -126,6 +150,9 @@ def execute(case):
     c = case["c"]
     if enc(c) != case["toks"] or dec(case["toks"]) != c:      # the two renderings of the input must be the same structure
         raise AssertionError("case tokens and nested structure disagree")
+    table, back = _tables(case)
+    if table is not None:            # non-integer doubles: one rendering
+        return {"runs": [_run(e, "fine", case["kind"], c, table, back) for e in ENTRIES]}
     return {"runs": [_run(e, n, case["kind"], c) for e in ENTRIES for n in NUMS]}
 
 
@@ -136,6 +163,20 @@ _F = [0, 0, 1, 250, 1000, 4999999, 5000000, 5000000]
 _BAD = [-1, -5, -2000000000, 5000001, 6000000, 2000000000]
 
 
+# the coding of GeomValidate!FineTable (random fine cases carry it along like the enumerated ones do)
+FINE = [(-1, "-0.00000095367431640625"), (0, "0.0"), (1, "0.00000095367431640625"), (2, "0.123456789"), (3, "1.0"),
+        (4, "1.000000000931322574615478515625"), (5, "1.0000001"), (6, "1.0000004"), (7, "2.5"),
+        (4999999, "4999999.9999999"), (5000000, "5000000.0"), (5000001, "5000000.0000001")]
+
+
+def _leaves(c):
+    if isinstance(c, list):
+        for y in c:
+            yield from _leaves(y)
+    else:
+        yield c
+
+
 def _pt(rng):
     return [rng.choice(_T), rng.choice(_F)]
 
@@ -144,14 +185,17 @@ def _pts(rng, lo, hi):
     return [_pt(rng) for _ in range(rng.randint(lo, hi))]
 
 
+_LINE_T = list(range(0, 50))     # the times multi-lines are drawn from (ascending)
+
+
 def _line_fwd(rng):
     n = rng.randint(2, 5)
     if rng.random() < 0.5:          # every step forward
-        ts = sorted(rng.sample(range(0, 50), n))
+        ts = sorted(rng.sample(_LINE_T, n))
     else:                            # forward overall only
-        ts = [rng.randrange(0, 50) for _ in range(n)]
+        ts = [rng.choice(_LINE_T[:-1]) for _ in range(n)]
         if ts[0] >= ts[-1]:
-            ts[-1] = ts[0] + 1 + rng.randrange(3)
+            ts[-1] = rng.choice([t for t in _LINE_T if t > ts[0]])
     return [[t, rng.choice(_F)] for t in ts]
 
 
@@ -253,7 +297,26 @@ def random_cases(rng, tier):
         toks = enc(c)
         if len(toks) > 400:
             continue
-        yield {"kind": kind, "toks": toks, "c": c}
+        yield {"kind": kind, "toks": toks, "c": c, "num": "lit", "vals": []}
+    # the same generator over the codes of the fine table (non-integer doubles)
+    global _T, _F, _BAD, _LINE_T
+    lit = (_T, _F, _BAD, _LINE_T)
+    codes = [k for k, _ in FINE]
+    _T, _F, _BAD = [c for c in codes if c >= 0], [c for c in codes if 0 <= c <= 5000000], [-1, 5000001]
+    _LINE_T = list(_T)
+    try:
+        for _ in range(n // 4):
+            kind = rng.choice(KINDS)
+            c = _valid(rng, kind)
+            for _ in range(rng.choice([0, 0, 1, 1, 2])):
+                c = _edit(rng, c)
+            if any(v not in codes for v in _leaves(c)):
+                continue
+            toks = enc(c)
+            if len(toks) <= 400:
+                yield {"kind": kind, "toks": toks, "c": c, "num": "fine", "vals": [[k, v] for k, v in FINE]}
+    finally:
+        _T, _F, _BAD, _LINE_T = lit
 
 
 def nontrivial(o):
@@ -268,14 +331,15 @@ MANIFEST = {
              "Impl: the validator chain of each of the nine classes (pydantic type layer, first and second field validator, Python "
              "unpacking, second validator not run after the first raised). MC_GeomValidate.tla steps through that chain and TLC checks "
              "Impl accepts iff Valid, Impl's value = Normal, idempotence / validity / point preservation of Normal, and that a fast parser "
-             "agrees with a declarative one, over flat lists on a value alphabet incl. -1, 0, MAX_FREQUENCY, MAX_FREQUENCY+1, scalars, "
+             "agrees with a declarative one, over flat lists on a value alphabet incl. -1, 0, MAX_FREQUENCY, MAX_FREQUENCY+1 (and, through an order-preserving coding, "
+             "non-integer doubles: 2^-20, 1+2^-30, 1.0000001 vs 1.0000004, MAX_FREQUENCY -/+ 1e-7), scalars, "
              "extra nesting, point lists, valid skeletons of all kinds, every single-position token edit of every skeleton (replace, drop, "
              "insert, repeat, wrap, unwrap, reverse, empty), every skeleton under every tag, and (thorough) every double edit. Each "
              "structure is then pushed through the constructor, model_validate, geometry_validate in json / dict / attributes mode and "
              "SoundEvent(geometry=dict), with float and int numbers, and TLC judges accept/reject, error class, normal form, class = tag, "
              "agreement of the modes and the JSON dump round trip. Bounded-exhaustive plus random multi-edit structures."),
-    "note": ("trusted: TLC, the binder checks/c03.py (token <-> nested list, calls, exact read-back); numbers are integer-valued ints/floats "
-             "(NaN, inf, strings, booleans, tuples and fractional values are not generated); 'no object exists' is observed as 'the call "
+    "note": ("trusted: TLC, the binder checks/c03.py (token <-> nested list, calls, exact read-back); numbers are ints, integer-valued floats and the "
+             "non-integer doubles of FineTable (NaN, inf, strings, booleans, tuples are not generated); 'no object exists' is observed as 'the call "
              "raised'; where the statement is open (multi-line forward: first<last vs every step) nothing is demanded; "
              "small-scope hypothesis beyond the enumerated structures"),
     "design_ref": "DESIGN.md section 4 C03",
